@@ -47,3 +47,9 @@ def WellFormed (up : Bytes → Option Bytes) : Elem → Prop
   | .frame f => FrameOK f
 
 end Rtsp.Frame
+
+namespace Rtsp.Frame
+instance (v : Bytes) : Decidable (ValueOK v) := by unfold ValueOK; infer_instance
+instance (h : Header) (b : Bytes) : Decidable (BodyOK h b) := by unfold BodyOK; infer_instance
+instance (f : IFrame) : Decidable (FrameOK f) := by unfold FrameOK; infer_instance
+end Rtsp.Frame
